@@ -3,6 +3,7 @@
 package c20
 
 import (
+	"time"
 	"math"
 	"sync/atomic"
 	"testing"
@@ -77,4 +78,31 @@ func TestVerif_C20_PublicAPI(t *testing.T) {
 		})
 	}
 	m.Require("meters_exercised", 40)
+	// a meter started on a counter that is already large and then does not move (a process that attaches a meter to a
+	// connection that has been up for a while): no increase was ever observed, every rate and the average are exactly 0
+	for run := 0; run < m.N(6, 60); run++ {
+		s := &src{n: uint64(5000000000 + run)}
+		kb := kxps.NewKbps(nil, s)
+		kr := kxps.NewKrps(nil, s)
+		m.Guard("kxps.public.stalled", nil, func() {
+			kb.Start()
+			kr.Start()
+			for k := 0; k < 3; k++ {
+				time.Sleep(time.Duration(5+10*k) * time.Millisecond)
+				for name, g := range map[string]func() float64{"kbps10": kb.Kbps10s, "kbps30": kb.Kbps30s, "kbps300": kb.Kbps300s, "kbpsAvg": kb.Average,
+					"krps10": kr.Rps10s, "krps30": kr.Rps30s, "krps300": kr.Rps300s, "krpsAvg": kr.Average} {
+					m.Case()
+					m.Class("stalled-from-start/" + name)
+					if v := g(); v != 0 {
+						m.Violationf("c20:nonzero-rate-without-any-increase:public:"+name, map[string]interface{}{"getter": name, "value": v, "counter": s.n},
+							"%s = %v for a counter that has stood at %d since before Start", name, v, s.n)
+					}
+				}
+			}
+			kb.Close()
+			kr.Close()
+			m.Count("meters_started_on_a_large_stalled_counter", 2)
+		})
+	}
+	m.Require("meters_started_on_a_large_stalled_counter", 12)
 }
